@@ -733,7 +733,7 @@ func run(e *harness.Env) {
 		"(N=3: 216 triples, N=4: 13824) x packaging variants = every assignment of {part path style, Target spelling, optional parts, decoy part, absent declared part, " +
 		"one blank part (every position), one part without the optional companion part the others have (every position), " +
 		"relationship/manifest element order, members before/after infrastructure} with at most B non-default values " +
-		"(quick: N=3,B=1; thorough: N=4,B=1 and N=3,B=2). distinct = distinct descriptors; non-trivial = any permutation differs from creation order or any variant value is non-default"
+		"(quick: N=3,B=1; thorough: N=3,B=2 and N=4,B=1 restricted to path/decoy/companion/blank/absent). distinct = distinct descriptors; non-trivial = any permutation differs from creation order or any variant value is non-default"
 	e.Assumptions = []string{
 		"archive/zip writes the members in the order given (Go standard library)",
 		"the writers pptxw / epubw / the private XLSX writer emit packages that are valid for OPC / ECMA-376 / EPUB OCF+OPF (structure reviewed against the specifications; the logical input is the oracle)",
@@ -749,7 +749,7 @@ func run(e *harness.Env) {
 		passes = []pass{{3, 0, 2}, {4, 0, 0}, {4, 1, 1}}
 		e.SetBudget(13 * time.Minute)
 	}
-	e.Note("bound", "quick: 3 parts, <=1 non-default variant value; thorough: 3 parts <=2, 4 parts <=1")
+	e.Note("bound", "quick: 3 parts, <=1 non-default variant value; thorough: 3 parts <=2, 4 parts <=1 (4 parts: path, decoy, companion, blank, absent deviations only)")
 	formats := []string{"xlsx", "pptx", "epub2", "epub3"}
 	for _, ps := range passes {
 		pm := perms(ps.n)
@@ -787,6 +787,12 @@ func run(e *harness.Env) {
 				if devs < ps.minDev {
 					continue
 				}
+				// 4 parts: the deviations that do not interact with the number or position of parts (member placement,
+				// relationship element order, Target spelling, package-wide optional parts) stay at 3 parts, where
+				// they are enumerated alone and in every pair
+				if ps.n == 4 && devs == 1 && (devNames[0] == "place" || devNames[0] == "relorder" || devNames[0] == "target" || devNames[0] == "opt") {
+					continue
+				}
 				if e.TimeUp() {
 					e.Incomplete(fmt.Sprintf("time budget reached in pass parts=%d deviations<=%d", ps.n, ps.maxDev))
 					return
@@ -804,7 +810,8 @@ func run(e *harness.Env) {
 				// every worker and every replay walks all of it)
 				head := harness.D("fmt", format, "n", ps.n)
 				tail := " " + vdesc
-				hasDecoy := " hasdecoy=" + fmt.Sprint(v["decoy"] != "none")
+				hasDecoy := " hasdecoy=" + fmt.Sprint(v["decoy"] != "none") +
+					" hascompanion=" + fmt.Sprint(v["companion"] != "none" || v["opt"] == "notes")
 				rel := func(a, decl []int) string {
 					if equal(a, decl) {
 						return "declared"
